@@ -21,6 +21,7 @@ pub mod hc {
 }
 
 mod c06;
+pub mod listener;
 mod c16;
 mod c19;
 
